@@ -259,7 +259,15 @@ def literal_case(draw):
     # plain printable characters plus the escape sequences \" \\ \n \t (anywhere, incl. at the end)
     plain = st.text(st.characters(min_codepoint=32, max_codepoint=126, blacklist_characters='"\\'), max_size=6)
     parts = draw(st.lists(st.one_of(plain, st.sampled_from(['\\"', "\\\\", "\\n", "\\t"])), max_size=5))
-    return {"lit": '"%s"' % "".join(parts), "kind": "str"}
+    body = "".join(parts)
+    pad = draw(st.integers(0, 5))  # blanks at the ends belong to the value
+    if pad == 0:
+        body = " " + body
+    elif pad == 1:
+        body = body + draw(st.sampled_from([" ", "  "]))
+    elif pad == 2:
+        body = " " + body + " "
+    return {"lit": '"%s"' % body, "kind": "str"}
 
 
 def shard(ctx):
